@@ -158,6 +158,7 @@ func (p *Prog) normalise() {
 			if os.Getenv("PINTSA_NO_PURETEMPS") == "" {
 				normaliseIndexLoops(info, pkg.Types, f)
 				inlinePureTemps(info, f)
+				normaliseCompare([]*packages.Package{pkg})
 			}
 			normaliseChains(f)
 			retagSwitches(info, f)
